@@ -4,7 +4,7 @@
 //!   `cache m:<mod> pre:<pre> fs:<fs> r:<resp>[|<resp>…] drop:<-|all|k> race:<0|1>`
 //!     mod  : index into `MODULES` (debug file / debug id / code file / code id)
 //!     pre  : what sits at the module's cache path before the call
-//!            `-` | `valid` | `validurl` | `corrupt` | `trunc` | `dir` | `special` | `dangling` | `local`
+//!            `-` | `valid` | `validurl` | `corrupt` | `trunc` | `dir` | `special` (symlink to /dev/null) | `dangling` | `local`
 //!            (`local`: the file is in a separate local symbol path, the cache is empty)
 //!     fs   : `-` | `tmpmissing` | `cachefile` | `subfile` | `rotmp` | `rocache` | `roleaf`
 //!            (the `ro*` modes use chmod and are skipped-and-counted when permissions do not bite, i.e. as root)
@@ -12,8 +12,8 @@
 //!            framing `len|chunked|close`; cut `-` or the number of body bytes after which the connection is closed;
 //!            pace = microseconds between pieces; split `w` (one piece) | `l` (line by line) | `s<seed>` (random pieces)
 //!            body `g<seed>.<lines>[+c<j>][+t][+u][+o][+M<k>][+L<k>]` (generated; `+c<j>` line j made unparseable, `+t` final newline removed,
-//!                 `+u` contains its own INFO URL line, `+o` ends inside an open FUNC item, `+M<k>` a terminated line of k bytes in the
-//!                 middle, `+L<k>` an unterminated last line of k bytes) | `e` (empty) | `x<hex>`
+//!                 `+u` contains its own INFO URL line, `+o` ends inside an open FUNC item, `+M<k>` a terminated line of k bytes after
+//!                 the MODULE line, `+L<k>` an unterminated last line of k bytes) | `e` (empty) | `x<hex>`
 //!     drop : `-` run to completion | `k` drop the future after k polls | `all` completion, then every poll boundary in turn
 //!     race : `1` = two concurrent calls for the same module (needs exactly two resps, one server each): the second call
 //!            passes its cache lookup, then the first runs to completion, then the second finishes
@@ -328,8 +328,8 @@ fn body_bytes(spec: &str, m: &Mod) -> Option<Vec<u8>> {
         // a terminated PUBLIC line of k bytes in the middle (longer than the parser's window when k > 160 KiB)
         let mut l = b"PUBLIC ffff0 0 ".to_vec();
         l.resize(k.max(16), b'm');
-        let at = (lines.len() / 2).max(1);
-        lines.insert(at, l);
+        // right after MODULE (further down it could separate a FUNC from its line records)
+        lines.insert(1, l);
     }
     let mut out = vec![];
     for l in &lines {
@@ -578,10 +578,10 @@ fn node_at(p: &Path, port: u16) -> String {
         Err(_) => "none".into(),
         Ok(md) => {
             if md.file_type().is_symlink() {
-                if std::fs::metadata(p).is_err() {
-                    "dangling".into()
-                } else {
-                    "symlink".into()
+                match std::fs::metadata(p) {
+                    Err(_) => "dangling".into(),
+                    Ok(t) if !t.is_file() && !t.is_dir() => "special".into(),
+                    Ok(_) => "symlink".into(),
                 }
             } else if md.is_dir() {
                 "dir".into()
@@ -690,14 +690,10 @@ fn setup_dirs(c: &Case, m: &Mod) -> Dirs {
             "dir" => std::fs::create_dir_all(&final_path).unwrap(),
             "special" => {
                 std::fs::create_dir_all(&leaf_dir).unwrap();
-                // a fifo: exists, is neither a regular file nor a directory, remove_file works
-                extern "C" {
-                    fn mkfifo(path: *const std::os::raw::c_char, mode: u32) -> i32;
-                }
-                use std::os::unix::ffi::OsStrExt;
-                let cpath = std::ffi::CString::new(final_path.as_os_str().as_bytes()).unwrap();
-                let rc = unsafe { mkfifo(cpath.as_ptr(), 0o644) };
-                assert_eq!(rc, 0, "mkfifo failed");
+                // a symlink to a character device: `exists()` is true, it is neither a regular file nor a
+                // directory for `fs::metadata`, and `remove_file` removes the link. (Not a fifo: a mutated
+                // implementation that opens the final path for writing would block on it forever.)
+                std::os::unix::fs::symlink("/dev/null", &final_path).unwrap();
             }
             "dangling" => {
                 std::fs::create_dir_all(&leaf_dir).unwrap();
@@ -1180,6 +1176,13 @@ fn outside_model(c: &Case) -> bool {
     })
 }
 
+struct DoneGuard(std::sync::mpsc::Sender<()>);
+impl Drop for DoneGuard {
+    fn drop(&mut self) {
+        let _ = self.0.send(());
+    }
+}
+
 fn skipped_for_root(c: &Case) -> bool {
     c.fs.starts_with("ro") && !permissions_bite()
 }
@@ -1384,6 +1387,16 @@ impl Engine for Cache {
             res.tags.push(kind.into());
             res.tags.push(format!("framing:{:?}", r.framing));
         }
+        // a mutated implementation may block for ever (it never should): do not let the whole check hang
+        let (done_tx, done_rx) = std::sync::mpsc::channel::<()>();
+        let case_copy = case.to_string();
+        std::thread::spawn(move || {
+            if done_rx.recv_timeout(Duration::from_secs(120)).is_err() {
+                eprintln!("[cache] WATCHDOG: no result after 120 s for case: {case_copy}");
+                std::process::exit(3);
+            }
+        });
+        let _done_guard = DoneGuard(done_tx);
         let single_drop: Option<usize> = c.drop.parse().ok();
         let full = run_once(&c, m, &prep, None);
         oracle(&c, m, &prep, &full, "completed run", &mut res.oracle);
